@@ -410,6 +410,8 @@ def check(case, tr):
         # replay does: the buffers are judged through the replayed ticks; only their presence is checked here
         if d0 and (r1 is None or r2 is None or r3 is None):
             V.append("recorded buffers missing from the global state (memory backend)")
+        elif d0:
+            bufcmp = 1
     elif case.start != 0:
         bufcmp = 0
     elif r1 is not None and r2 is not None and r3 is not None:
